@@ -11,7 +11,7 @@ from vlib.framework import BaseCheck, CaseResult
 
 IDLE, OPEN, BUSY, CLOSED = 1, 2, 3, 4
 SERIAL_SKELETONS = ['open', 'one', 'two', 'after-timeout', 'chunked', 'timeout-in-write']
-MUX_SKELETONS = ['open', 'one', 'three', 'timed-out+one', 'queued', 'ping', 'silent-inflight']
+MUX_SKELETONS = ['open', 'one', 'three', 'timed-out+one', 'queued', 'ping', 'silent-inflight', 'requests-while-opening']
 FAULTS = ['error', 'eof', 'refuse', 'silence']
 OPS = [('connect', 0)] + [('send', i) for i in range(4)] + [('recv', i) for i in range(10)]
 
@@ -44,7 +44,7 @@ class C08(BaseCheck):
   LEVEL = 'fault_enumeration'
   RULE = ('enumerated space = {serial Thrift transport x skeletons open/one/two/after-timeout/chunked/timeout-in-write (deadline fires inside a blocked partial write), '
           'ThriftMux transport x skeletons open(incl. initial ping)/one/three concurrent/timed-out+one/'
-          'queued(stalled writer)/ping/silent-inflight (peer goes silent with a request in flight and a timed-out one unacknowledged)} + {reply and close (FIN/RST) in one instant on request 0/1/2} x connection ordinal {0,1} x op {connect; send 0-3; recv 0-9} x fault '
+          'queued(stalled writer)/ping/requests-while-opening/silent-inflight (peer goes silent with a request in flight and a timed-out one unacknowledged)} + {reply and close (FIN/RST) in one instant on request 0/1/2} x connection ordinal {0,1} x op {connect; send 0-3; recv 0-9} x fault '
           '{exception, EOF, refusal, silence}; quick and thorough both sweep it completely (thorough adds '
           'seeded timing variants per point). A point whose planned fault never fires (the skeleton performs '
           'fewer operations) is counted as not reached. Oracle per run: every request gets exactly one '
@@ -61,7 +61,7 @@ class C08(BaseCheck):
              'scales.scales_socket:ScalesSocket.open')
   REQUIRED_ANCHORS = ANCHORS
   REQUIRED_CLASSES = ('thrift', 'mux', 'fault:connect', 'fault:send', 'fault:recv', 'kind:error', 'kind:eof',
-                      'kind:refuse', 'kind:silence', 'reconnect-fault', 'probe', 'ping-silence', 'reply-and-close-same-instant', 'timeout-in-write', 'silent-with-inflight')
+                      'kind:refuse', 'kind:silence', 'reconnect-fault', 'probe', 'ping-silence', 'reply-and-close-same-instant', 'timeout-in-write', 'silent-with-inflight', 'requests-while-opening')
   ASSUMPTIONS = ('a silence fault (peer stops answering without closing) legitimately leaves the transport '
                  'open; only the probe clause applies then',)
   QUICK_WALL = 180
@@ -190,6 +190,12 @@ class C08(BaseCheck):
 
     # ---------------------------------------------------------------- skeleton
     open_ar = top.Open()
+    if sk == 'requests-while-opening':
+      # requests handed to the transport after Open() was called and before it completes are
+      # parked until the open finishes: if it fails they are in flight on a failed connection
+      classes.add('requests-while-opening')
+      request(T=600.0)      # deadlines far away: only the transport can complete them in this case
+      request(T=600.0)
     g = 0
     while not open_ar.ready() and g < 400:
       env.advance(0.05)
@@ -279,6 +285,9 @@ class C08(BaseCheck):
           if transport.state != CLOSED or not faults:
             out.violate('ping:no-shutdown', 'a ping went unanswered for more than 5 s but the transport reports '
                         'state %s (fault signals: %d)' % (transport.state, len(faults)), facts0)
+      elif sk == 'requests-while-opening':
+        # a peer that has gone silent is only found out by the next ping (30-40 s + 5 s grace)
+        env.advance(50.0 if fkind == 'silence' else 1.5)
       elif sk == 'silent-inflight':
         # the peer goes completely silent (connection stays up) while one request is in flight
         # and another has timed out without its discard being acknowledged: the next ping
@@ -314,6 +323,8 @@ class C08(BaseCheck):
     for r in reqs:
       out.obligations += 1
       d = r['deliveries']
+      if not d and fkind == 'silence' and fired and transport.state != CLOSED and r['t'] + r['T'] > env.now:
+        continue      # swallowed by a silent peer, deadline not reached, connection still up: legitimately pending
       if len(d) != 1:
         out.violate('request:completions', 'request %d got %d completions %r (fault %r fired: %s)' % (
           r['id'], len(d), [type(x[2].error).__name__ for x in d], (op, ordinal, fkind), bool(fired)),
